@@ -28,6 +28,11 @@ def sv(file, twin):
 
     # R5: placement-new / destructor calls -> ELEM protocol functions; R6: reference return -> pointer return
     ret_ref = [[r'return \*', 'return ', 1]]
+
+    def dtor_call(ix, mn):      # reinterpret_cast<T *>(&_data[ix])->~T();
+        return [r'\(ELEM \*\)\((&self->_data\[%s\])\)->~ELEM\(\);' % ix, r'ELEM_destroy((ELEM *)(\1));', mn]
+    # operator=: `if (this == &other) return *this; clear();` exists only in the repaired code (C14_assign_over_live.patch)
+    self_guard = [r'\(this == &\(\*other\)\)', '(self == other)', 0]
     pieces = [
         {'op': 'glue', 'text': '#include "c14_sv.h"\n#include "c14_std_stubs.h"\n'
                                '/* R4: the inline storage member, copied here as an anchor (the extraction stops if it changes):'},
@@ -53,7 +58,8 @@ def sv(file, twin):
         f('front', 'static_vector_front', occurrence=0, ret='ELEM *', rewrite=ret_ref),
         f('front', 'static_vector_front_c', occurrence=1, ret='const ELEM *', const_self=True, rewrite=ret_ref),
         # ---- modifiers
-        f('clear', 'static_vector_clear'),
+        # (the destructor-call rule fires only once clear() destroys its elements: proposed_fixes/C14_clear_no_destroy.patch)
+        f('clear', 'static_vector_clear', rewrite=[dtor_call('pos', 0)]),
         f('push_back', 'static_vector_push_back', refs=['obj'],
           rewrite=[[r'new \((&self->_data\[self->m_size\])\) ELEM\(\(\*obj\)\);', r'ELEM_copy_construct(\1, obj);', 1]]),
         f('emplace_back', 'static_vector_emplace_back', ret='void',
@@ -61,32 +67,33 @@ def sv(file, twin):
           rewrite=[[r'new \((&self->_data\[self->m_size\])\) ELEM\(' + NS + r'::forward<Args>\(args\)\.\.\.\);',
                     r'ELEM_construct_value(\1, args);', 1]]),
         f('resize', 'static_vector_resize',
-          rewrite=[[r'new \((&self->_data\[i\])\) ELEM\{\};', r'ELEM_construct_default(\1);', 1]]),
+          rewrite=[[r'new \((&self->_data\[i\])\) ELEM\{\};', r'ELEM_construct_default(\1);', 1], dtor_call('i', 0)]),
         # ---- special members
-        # the default ctor follows `public:` directly; vclib.inject.find_function takes `: name(` for an expression, so the
-        # access specifier is made part of the (literal) name
-        f('public:\n        static_vector', 'static_vector_ctor_default', occurrence=0,
+        # constructors are told apart by their position in the class: 0 default, 1 copy, 2 move, 3 iterator range, 4 initializer list
+        f('static_vector', 'static_vector_ctor_default', occurrence=0,
           rewrite=[[r'sizeof\(self->_data\)', '(CAP * sizeof(ELEM))', 1]]),
-        f('static_vector', 'static_vector_ctor_copy', occurrence=0, refs=['other'],
+        f('static_vector', 'static_vector_ctor_copy', occurrence=1, refs=['other'],
           rewrite=[[r'new \((&self->_data\[pos\])\) ELEM\(\(\*other\)\[pos\]\);',
                     r'ELEM_copy_construct(\1, static_vector_at_c(other, pos));', 1]]),
-        f('static_vector', 'static_vector_ctor_move', occurrence=1, refs=['other'],
+        f('static_vector', 'static_vector_ctor_move', occurrence=2, refs=['other'],
           sig_rewrite=[[r'&\*other', '*other', 1]],
           rewrite=[[r'new \((&self->_data\[pos\])\) ELEM\(' + NS + r'::move\(\(\*other\)\[pos\]\)\);',
                     r'ELEM_move_construct(\1, static_vector_at(other, pos));', 1],
                    [r'other->clear\(\)', 'static_vector_clear(other)', 0 if twin else 1]]),
         f('operator=', 'static_vector_assign_copy', occurrence=0, refs=['other'], ret='struct static_vector *',
-          rewrite=[[r'new \((&self->_data\[pos\])\) ELEM\(\(\*other\)\[pos\]\);',
+          methods={'clear': 'static_vector_clear'},
+          rewrite=[self_guard, [r'new \((&self->_data\[pos\])\) ELEM\(\(\*other\)\[pos\]\);',
                     r'ELEM_copy_construct(\1, static_vector_at_c(other, pos));', 1],
                    [r'return \*this;', 'return self;', 1]]),
         f('operator=', 'static_vector_assign_move', occurrence=1, refs=['other'], ret='struct static_vector *',
+          methods={'clear': 'static_vector_clear'},
           sig_rewrite=[[r'&\*other', '*other', 1]],
-          rewrite=[[r'new \((&self->_data\[pos\])\) ELEM\(' + NS + r'::move\(\(\*other\)\[pos\]\)\);',
+          rewrite=[self_guard, [r'new \((&self->_data\[pos\])\) ELEM\(' + NS + r'::move\(\(\*other\)\[pos\]\)\);',
                     r'ELEM_move_construct(\1, static_vector_at(other, pos));', 1],
                    [r'other->clear\(\)', 'static_vector_clear(other)', 0 if twin else 1],
                    [r'return \*this;', 'return self;', 1]]),
         f('~static_vector', 'static_vector_dtor', ret='void',
-          rewrite=[[r'\(ELEM \*\)\((&self->_data\[pos\])\)->~ELEM\(\);', r'ELEM_destroy((ELEM *)(\1));', 1]]),
+          rewrite=[dtor_call('pos', 1)]),
     ]
     if not twin:
         pieces += [
@@ -95,13 +102,13 @@ def sv(file, twin):
              'tparams': {'T': 'ELEM'}, 'rewrite': [[r'ptr->~ELEM\(\);', 'ELEM_destroy(ptr);', 1]]},
             f('erase', 'static_vector_erase', methods={'end': 'static_vector_end'},
               rewrite=[[r'igris::destructor\(', 'igris_destructor(', 1],
-                       [r'std::move\(last, static_vector_end\(self\), first\);', 'std_move_range(last, static_vector_end(self), first);', 1]]),
+                       [r'std::move\(', 'std_move_range(', 1]]),     # the 3-argument algorithm std::move(first, last, d_first)
             # template <class It> static_vector(It b, It e), It = const T *
-            f('static_vector', 'static_vector_ctor_range', occurrence=2, methods={'push_back': 'static_vector_push_back'},
+            f('static_vector', 'static_vector_ctor_range', occurrence=3, methods={'push_back': 'static_vector_push_back'},
               tparams=dict(TP, It='const ELEM *'),
               rewrite=[[r'static_vector_push_back\(self, \*b\)', 'static_vector_push_back(self, b)', 1]]),
             # std::initializer_list<T> = (array, length); range-for -> index loop (R10)
-            f('static_vector', 'static_vector_ctor_ilist', occurrence=3,
+            f('static_vector', 'static_vector_ctor_ilist', occurrence=4,
               sig_rewrite=[[r'const std::initializer_list<ELEM> &lst', 'const ELEM *lst, size_t lst_len', 1]],
               rewrite=[[r'for \(auto &obj : lst\)(\s*)\{',
                         r'for (size_t lst_i = 0; lst_i < lst_len; ++lst_i)\1{ const ELEM *obj = &lst[lst_i];', 1],
